@@ -792,6 +792,23 @@ class MatchFunction:
         self.fn = fn
 
 
+class MatchIdentity(MatchFunction):
+    """Match a specific object (``value is obj``)."""
+
+    def __init__(self, obj):
+        self.obj = obj
+        super().__init__(self._is_obj)
+
+    def _is_obj(self, value):
+        return value is self.obj
+
+    def __eq__(self, other):
+        return isinstance(other, MatchIdentity) and other.obj is self.obj
+
+    def __hash__(self):
+        return hash(id(self.obj))
+
+
 def _dig(fn):
     while hasattr(fn, "__wrapped__") and not is_tooled(fn):
         fn = fn.__wrapped__
@@ -815,7 +832,7 @@ def _resolve(selector, env, cnt):
                 Element(
                     name=selfname,
                     capture=selfname,
-                    value=fn.__self__,
+                    value=MatchIdentity(fn.__self__),
                 )
             )
         else:
